@@ -292,6 +292,10 @@ class Type4Tag(nfc.tag.Tag):
             log.debug("ndef file read flag is %d", rf)
             log.debug("ndef file write flag is %d", wf)
 
+            if mfs < tag - 2:
+                log.error("ndef file size limit is less than the length field")
+                return False
+
             if not self.tag._extended_length_support:
                 # short length apdu can not transport more than 256
                 # response data bytes and 255 command data bytes
